@@ -75,7 +75,7 @@ def fstr(fs):
 
 class C11(Prop):
     id = "C11"
-    modules = ["H3.Props.C11", "H3.Props.C11Closed"]
+    modules = ["H3.Props.C11", "H3.Props.C11Closed", "H3.Lemmas.GenAgreeQpack"]
     engines = ["qpack", "lim"]
     design_ref = "DESIGN.md section 7, C11"
     level_text = ("Lean theorems over a model of the stateless QPACK paths (static_.rs tables regenerated from the source, "
